@@ -127,6 +127,58 @@ fn users(c: &mut Ctx) {
     for k in ["zone_diffs_forward", "zone_diffs_forward_across_the_wrap", "zone_diffs_backward_refused", "sigtimes_after_the_wrap", "sigtimes_before_the_wrap"] {
         c.floor(k, 10);
     }
+    #[cfg(feature = "crypto")]
+    validator_times(c);
+}
+
+/// (3) the validator deciding whether now lies inside a signature's validity period: inception
+/// and expiration are serial numbers (RFC 4034 3.1.5), so a period that starts up to 2^31 seconds
+/// back, or ends that far ahead, is in force whether or not its ends straddle 2^32 as integers.
+#[cfg(feature = "crypto")]
+fn validator_times(c: &mut Ctx) {
+    if c.mode == "miri" {
+        return;
+    }
+    let rt = tokio::runtime::Builder::new_current_thread().enable_all().build().unwrap();
+    let total = c.total(64, 1280);
+    let far: i64 = (1 << 31) - 200_000;
+    // (inception offset, expiration offset, in force?, what)
+    let table: [(i64, i64, bool, &str); 7] = [
+        (-3600, 3600, true, "ordinary"),
+        (-far, 86_400, true, "inception-almost-2^31-back"),
+        (-86_400, far, true, "expiration-almost-2^31-ahead"),
+        (-(1 << 30), 1 << 30, true, "a-2^31-period-centred-on-now"),
+        (-2 * 86_400, -86_400, false, "expired-yesterday"),
+        (86_400, 2 * 86_400, false, "starts-tomorrow"),
+        (-far, -far + 86_400, false, "expired-almost-2^31-back"),
+    ];
+    for idx in c.cases("validator-times", total) {
+        if c.out_of_time() {
+            break;
+        }
+        let mut rng = c.case_rng("validator-times", idx);
+        let (io, eo, in_force, what) = table[(idx % table.len() as u64) as usize];
+        let r = crate::ctx::catch(|| crate::p14::sigtime_probe(&rt, &mut rng, io, eo));
+        let ex = json!({"inception_offset": io, "expiration_offset": eo, "what": what});
+        match r {
+            Err(pi) => c.violation(&format!("panic:{}", pi.site()), &format!("panic validating a signature with validity period {}: {}", what, pi.msg), c.replay_of("validator-times", idx, ex)),
+            Ok(Err(e)) if e.starts_with("panic") || e.starts_with("error") => c.violation(&format!("sigtime:validator:{}:failure", what), &format!("validating a signature with validity period {}: {}", what, e), c.replay_of("validator-times", idx, ex)),
+            Ok(Err(e)) => c.note(&format!("harness: validator-times case not built: {}", e)),
+            Ok(Ok(state)) => {
+                if in_force && state != "Secure" {
+                    c.violation(&format!("sigtime:validator:in-force-refused:{}", what), &format!("an answer whose signature is in force (inception now{:+} s, expiration now{:+} s, as serial numbers) validates as {}", io, eo, state), c.replay_of("validator-times", idx, ex));
+                } else if !in_force && state == "Secure" {
+                    c.violation(&format!("sigtime:validator:not-in-force-accepted:{}", what), &format!("an answer whose signature is not in force (inception now{:+} s, expiration now{:+} s) validates as Secure", io, eo), c.replay_of("validator-times", idx, ex));
+                } else {
+                    c.count(if in_force { "validator_periods_in_force_accepted" } else { "validator_periods_not_in_force_refused" }, 1);
+                }
+                c.evals_n(1);
+                c.sig(&("validator-times", what, state));
+            }
+        }
+    }
+    c.floor("validator_periods_in_force_accepted", 3);
+    c.floor("validator_periods_not_in_force_refused", 3);
 }
 
 /// Check one (base, difference) pair with a shift; returns a violation text.
